@@ -262,6 +262,7 @@ type FuncCtx struct {
 	sliceCopies map[types.Object]types.Object // slice header copied inside a loop from a variable declared outside it
 	pendingLabel string      // label of the statement about to be executed (consumed by the loop it labels)
 	loopDepthPos []token.Pos // positions of the loops being executed (innermost last)
+	appendTarget types.Object // variable the value of the expression being evaluated is assigned to (nil: none / not a plain variable)
 	specPos    token.Pos
 	curCallee  *calleeCtx // when evaluating a callee's contract
 	theories   map[string]bool
